@@ -28,6 +28,7 @@ for f in glob.glob(os.path.join(V, "lean", "OSProofs", "Audit", "*.lean")):
 def wc(pattern):
     return sum(len(open(f).read().split("\n")) for f in glob.glob(os.path.join(V, "lean", pattern), recursive=True))
 body = body.replace("@@NTOTAL@@", str(len(names))).replace("@@LINES@@", str(wc("OSProofs/**/*.lean")))
+body = body.replace("@@NSEEDED@@", str(n))
 body = body.replace("@@MLINES@@", str(wc("OSModel/*.lean") + wc("Driver.lean")))
 open(os.path.join(V, "DESIGN.md"), "w").write(head + body)
 print("DESIGN.md written:", ok, "/", n)
